@@ -230,6 +230,12 @@ pub mod utils;
 /// Events.
 pub mod events;
 
+/// Verification harnesses (compiled only under `cargo kani`, which sets `--cfg kani`).
+#[cfg(kani)]
+mod verif_harness {
+    include!(concat!(env!("GMSOL_VERIF_DIR"), "/kani/inc/store/root.rs"));
+}
+
 use self::{
     instructions::*,
     ops::{
